@@ -150,7 +150,9 @@ class Tokenizer:
     def _push_textbuffer(self):
         """Push the textbuffer onto the stack as a Text node and clear it."""
         if self._textbuffer:
-            self._stack.append(tokens.Text(text="".join(self._textbuffer)))
+            text = "".join(self._textbuffer)
+            if text:
+                self._stack.append(tokens.Text(text=text))
             self._textbuffer = []
 
     def _pop(self, keep_context=False):
